@@ -389,6 +389,22 @@ def rule_total(rep, d, std):
                 if nm in NORETURN:
                     bad = (x, "calls %s()" % nm)
                     break
+        if bad and bad[1].startswith("calls __assert"):
+            # an assertion is a failure exit for a missing operand only if it tests presence; one about something else is not judged here
+            par = d.parent_of(bad[0])
+            hops = 0
+            while par is not None and par.get("kind") != "ConditionalOperator" and hops < 6:
+                par = d.parent_of(par)
+                hops += 1
+            cond_t = ir.sx(ir.ekids(par)[0]) if par is not None and par.get("kind") == "ConditionalOperator" else None
+            presence = cond_t is not None and any(
+                (x[0] == "mem" and x[2] in ("m_flag", "m_visible", "has_value", "visible")) or (x[0] == "ref" and x[1] in ("m_flag", "m_visible"))
+                for x in ir.subterms(cond_t) if isinstance(x, tuple))
+            if not presence:
+                cls = ir.enclosing_class(d, f)
+                rep.inconclusive(R, "%s%s" % ((cls.get("name") + "::") if cls else "", f.get("name")), "no failure exit", where=d.where(bad[0]), scenario="-std=%s" % std,
+                                 detail="an assertion whose condition `%s` does not mention the presence flag: whether a missing operand can make it fail is not decided" % (ir.show(cond_t)[:60] if cond_t else "?"))
+                continue
         if bad:
             cls = ir.enclosing_class(d, f)
             rep.violates(R, "%s%s" % ((cls.get("name") + "::") if cls else "", f.get("name")), "no failure exit", where=d.where(bad[0]), scenario="-std=%s" % std,
